@@ -15,9 +15,12 @@ mod regs;
 mod scn_c09bytes;
 mod scn_c09iter;
 mod scn_c11;
+#[cfg(feature = "opt")]
 mod scn_c17;
+#[cfg(feature = "opt")]
 mod scn_c18;
 mod scn_hist;
+#[cfg(feature = "opt")]
 mod seams;
 mod simalloc;
 mod sup;
@@ -52,14 +55,17 @@ pub static SCENARIOS: &[Scenario] = &[
     Scenario { name: "c14h", property: "C14", gen: scn_hist::gen_c14h, exec: scn_hist::exec_c14h },
     Scenario { name: "c14f", property: "C14", gen: scn_hist::gen_c14f, exec: scn_hist::exec_c14f },
     Scenario { name: "c15", property: "C15", gen: scn_hist::gen_c15, exec: scn_hist::exec_c15 },
+    #[cfg(feature = "opt")]
     Scenario { name: "c15rand", property: "C15", gen: scn_hist::gen_c15rand, exec: scn_hist::exec_c15rand },
     Scenario { name: "c16", property: "C16", gen: scn_hist::gen_c16, exec: scn_hist::exec_c16 },
+    #[cfg(feature = "opt")]
     Scenario {
         name: "c17",
         property: "C17",
         gen: scn_c17::gen,
         exec: scn_c17::exec,
     },
+    #[cfg(feature = "opt")]
     Scenario {
         name: "c18",
         property: "C18",
